@@ -12,7 +12,13 @@ Python `ast` only; no repo code is executed.  What is extracted
   * the branch thresholds of `expmint` and `_expm_SS` (eta tests, `theta_13`), which method each
     branch calls, and the `getEPQ` switch (`norm1 <= 2.0978...` -> getEPQ1 else getEPQ2);
   * the call shapes `mf._solve_P_Q(U, V)` (exp) and `_solve_P_Q_2(P, Q)` (integrals) — numerator
-    first, denominator second.
+    first, denominator second;
+  * the driver logic of `expmint` / `_expm_SS` (which norm quantities enter `eta_1..eta_5`, the doubles of the
+    thresholds, the scaling rule `max(int(np.<round>(np.<log>(eta_5 / theta_13))), 0)` with its nilpotent guard, the
+    `_ell` increment, the squaring loop `for _ in range(<expr>)` with its body), the `np.allclose(I_test, I)`
+    tolerances of `_geti2` (numpy defaults unless given), the two power-series loops (`tol`, `maxloops`, start `j`,
+    loop condition, body, raise test) of `_geti2` / `expmint_pow`, the assignments of `_procBhalf` and the norm
+    expression of `getEPQ` — statements as `ast.unparse` normal forms, pinned by theorem `driver_logic_pinned`.
 
 Literals are taken as the exact rationals of their *decimal text*; where the nearest double is a
 different number (six + six literals of the order-9 table of `_geti2`) the double is emitted too.
@@ -32,6 +38,7 @@ Grammar of a method body (anything else raises TranslateError -> the tie is brok
            | matrix[<slices>]   (block selection inside the augmented matrix: transparent)
 """
 import ast
+import json
 import os
 from fractions import Fraction
 
@@ -314,6 +321,120 @@ def _solve_shapes(fn):
     return shapes
 
 
+
+def _src(n):
+    return ast.unparse(n)
+
+
+def _driver_logic(fn, text, owner):
+    """the non-table part of `expmint` / `_expm_SS`: eta definitions, the scaling rule, the `_ell` increment and the
+    squaring loop -> dict (strings are `ast.unparse` normal forms)"""
+    out = {"etas": [], "round": None, "log": None, "floor0": False, "zero_guard": False, "ell_added": False,
+           "loop_range": None, "loop_body": None, "thr_double": []}
+    for st in fn.body:
+        if isinstance(st, ast.Assign) and len(st.targets) == 1 and isinstance(st.targets[0], ast.Name) \
+                and st.targets[0].id.startswith("eta_") and isinstance(st.value, ast.Call) \
+                and isinstance(st.value.func, ast.Name) and st.value.func.id in ("max", "min"):
+            args = []
+            for a in st.value.args:
+                if isinstance(a, ast.Attribute) and isinstance(a.value, ast.Name) and a.value.id == owner:
+                    args.append(a.attr)
+                elif isinstance(a, ast.Name):
+                    args.append(a.id)
+                else:
+                    _bad(st, "eta definition outside the grammar")
+            out["etas"].append((st.targets[0].id, st.value.func.id, args))
+        if isinstance(st, ast.If) and isinstance(st.test, ast.Compare) and isinstance(st.test.left, ast.Name) \
+                and st.test.left.id == "eta_5":
+            if not (len(st.test.ops) == 1 and isinstance(st.test.ops[0], ast.Eq)
+                    and isinstance(st.test.comparators[0], ast.Constant) and st.test.comparators[0].value == 0
+                    and len(st.body) == 1 and _src(st.body[0]) == "s = 0" and len(st.orelse) == 1):
+                _bad(st, "nilpotent guard of the scaling exponent outside the grammar")
+            out["zero_guard"] = True
+            v = st.orelse[0]
+            # s = max(int(np.<round>(np.<log>(eta_5 / theta_13))), 0)
+            ok = isinstance(v, ast.Assign) and _src(v.targets[0]) == "s" and isinstance(v.value, ast.Call)
+            c = v.value if ok else None
+            if ok and isinstance(c.func, ast.Name) and c.func.id == "max" and len(c.args) == 2 \
+                    and isinstance(c.args[1], ast.Constant) and c.args[1].value == 0:
+                out["floor0"] = True
+                c = c.args[0]
+            if not (ok and isinstance(c, ast.Call) and isinstance(c.func, ast.Name) and c.func.id == "int"
+                    and len(c.args) == 1 and isinstance(c.args[0], ast.Call)
+                    and isinstance(c.args[0].func, ast.Attribute) and len(c.args[0].args) == 1
+                    and isinstance(c.args[0].args[0], ast.Call)
+                    and isinstance(c.args[0].args[0].func, ast.Attribute)
+                    and _src(c.args[0].args[0].args[0]) == "eta_5 / theta_13"):
+                _bad(st, "scaling exponent formula outside the grammar")
+            out["round"] = c.args[0].func.attr
+            out["log"] = c.args[0].args[0].func.attr
+        if isinstance(st, ast.Assign) and _src(st.targets[0]) == "s" and "_ell" in _src(st.value):
+            if _src(st.value) != "s + mf._ell(2 ** (-s) * %s.A, 13)" % owner:
+                _bad(st, "`_ell` increment of s outside the grammar: %s" % _src(st.value))
+            out["ell_added"] = True
+        if isinstance(st, ast.For):
+            if not (isinstance(st.iter, ast.Call) and isinstance(st.iter.func, ast.Name) and st.iter.func.id == "range"
+                    and len(st.iter.args) == 1 and not st.orelse):
+                _bad(st, "squaring loop outside the grammar")
+            out["loop_range"] = _src(st.iter.args[0])
+            out["loop_body"] = [_src(b) for b in st.body]
+        if isinstance(st, ast.If) and isinstance(st.test, ast.BoolOp) and isinstance(st.test.op, ast.And) \
+                and len(st.test.values) == 2 and isinstance(st.test.values[0], ast.Compare) \
+                and isinstance(st.test.values[0].left, ast.Name) and st.test.values[0].left.id.startswith("eta_") \
+                and isinstance(st.test.values[0].comparators[0], ast.Constant):
+            out["thr_double"].append(Fraction(float(st.test.values[0].comparators[0].value)))
+    if out["loop_range"] is None or out["round"] is None or not out["ell_added"]:
+        raise TranslateError("%s: scaling rule / squaring loop not found" % fn.name)
+    return out
+
+
+def _while_loop(fn, what):
+    """the single `while` loop of `_geti2` / `expmint_pow` with its constants"""
+    consts = {}
+    loop = None
+    raise_test = None
+    for st in ast.walk(fn):
+        if isinstance(st, ast.Assign) and len(st.targets) == 1 and isinstance(st.targets[0], ast.Name) \
+                and st.targets[0].id in ("tol", "maxloops", "j") and isinstance(st.value, ast.Constant):
+            consts[st.targets[0].id] = Fraction(str(st.value.value)) if st.targets[0].id != "tol" else Fraction(repr(st.value.value))
+        if isinstance(st, ast.While):
+            if loop is not None:
+                raise TranslateError("%s: more than one while loop" % what)
+            loop = st
+        if isinstance(st, ast.If) and len(st.body) == 1 and isinstance(st.body[0], ast.Raise) \
+                and "maxloops" in _src(st.test):
+            raise_test = _src(st.test)
+    if loop is None or set(consts) != {"tol", "maxloops", "j"} or raise_test is None:
+        raise TranslateError("%s: power-series loop outside the grammar" % what)
+    return {"tol": consts["tol"], "maxloops": int(consts["maxloops"]), "j0": int(consts["j"]),
+            "cond": _src(loop.test), "body": [_src(b) for b in loop.body], "raise": raise_test}
+
+
+def _allclose_args(fn):
+    """`np.allclose(I_test, I[, rtol=..][, atol=..])` inside `_geti2` (numpy defaults 1e-5 / 1e-8)"""
+    found = None
+    for n in ast.walk(fn):
+        if isinstance(n, ast.Call) and isinstance(n.func, ast.Attribute) and n.func.attr == "allclose":
+            if found is not None:
+                raise TranslateError("_geti2: more than one allclose")
+            kw = {"rtol": Fraction(1, 10 ** 5), "atol": Fraction(1, 10 ** 8)}
+            pos = ["rtol", "atol"]
+            if [_src(a) for a in n.args[:2]] != ["I_test", "I"]:
+                raise TranslateError("_geti2: allclose arguments changed: %s" % _src(n))
+            for k, a in zip(pos, n.args[2:]):
+                if not isinstance(a, ast.Constant):
+                    raise TranslateError("_geti2: allclose tolerance is not a literal")
+                kw[k] = Fraction(repr(a.value))
+            for k in n.keywords:
+                if k.arg not in kw or not isinstance(k.value, ast.Constant):
+                    raise TranslateError("_geti2: allclose keyword outside the grammar: %s" % _src(n))
+                kw[k.arg] = Fraction(repr(k.value.value))
+            found = kw
+    if found is None:
+        raise TranslateError("_geti2: allclose acceptance test not found")
+    return found
+
+
 def extract(text):
     """-> dict with everything the generated file and the behavioural cross-check need"""
     tree = ast.parse(text)
@@ -427,6 +548,18 @@ def extract(text):
     if sw is None:
         raise TranslateError("getEPQ: switch not found")
     res["switch"] = sw
+    # driver logic: scaling rule, squaring loop, acceptance test, series truncation rules, _procBhalf slicing ----
+    res["logic_expmint"] = _driver_logic(ex, text, "H")
+    res["logic_ss"] = _driver_logic(sx, text, "h")
+    res["allclose"] = _allclose_args(g)
+    res["series"] = _while_loop(g, "_geti2")
+    res["pow"] = _while_loop(_find(tree, ast.FunctionDef, "expmint_pow"), "expmint_pow")
+    pb = _find(tree, ast.FunctionDef, "_procBhalf")
+    res["procbhalf"] = [_src(n) for n in ast.walk(pb) if isinstance(n, ast.Assign)]
+    norm = [n for n in ge.body if isinstance(n, ast.Assign) and _src(n.targets[0]) == "norm1"]
+    if len(norm) != 1:
+        raise TranslateError("getEPQ: norm1 assignment not found")
+    res["epq_norm"] = _src(norm[0].value)
     return res
 
 
@@ -504,6 +637,36 @@ def render(res):
     o.append("def epq_switch : Rat := %s" % _q(sw[0]))
     o.append("def epq_switch_inclusive : Bool := %s" % ("true" if sw[1] == "le" else "false"))
     o.append("def epq_switch_below_is_epq1 : Bool := %s" % ("true" if (sw[2], sw[3]) == ("getEPQ1", "getEPQ2") else "false"))
+    o.append("")
+    o.append("/-! driver logic (scaling rule, squaring loops, acceptance test, truncation rules); statements as")
+    o.append("`ast.unparse` normal forms -/")
+
+    def _strs(xs):
+        return "[" + ", ".join(json.dumps(x) for x in xs) + "]"
+
+    for key, lg in (("expmint", res["logic_expmint"]), ("ss", res["logic_ss"])):
+        o.append("def %s_thresholds_double : List Rat := %s" % (key, _list(lg["thr_double"])))
+        o.append("def %s_eta_defs : List (String × String × List String) := [%s]" % (
+            key, ", ".join("(%s, %s, %s)" % (json.dumps(a), json.dumps(b), _strs(c)) for a, b, c in lg["etas"])))
+        o.append("def %s_scaling_round : String := %s" % (key, json.dumps(lg["round"])))
+        o.append("def %s_scaling_log : String := %s" % (key, json.dumps(lg["log"])))
+        o.append("def %s_scaling_floor0 : Bool := %s" % (key, "true" if lg["floor0"] else "false"))
+        o.append("def %s_scaling_zero_guard : Bool := %s" % (key, "true" if lg["zero_guard"] else "false"))
+        o.append("def %s_scaling_ell_added : Bool := %s" % (key, "true" if lg["ell_added"] else "false"))
+        o.append("def %s_loop_range : String := %s" % (key, json.dumps(lg["loop_range"])))
+        o.append("def %s_loop_body : List String := %s" % (key, _strs(lg["loop_body"])))
+    o.append("/-- `np.allclose(I_test, I)` of `_geti2` (numpy's defaults unless given) -/")
+    o.append("def geti2_allclose_rtol : Rat := %s" % _q(res["allclose"]["rtol"]))
+    o.append("def geti2_allclose_atol : Rat := %s" % _q(res["allclose"]["atol"]))
+    for key, lp in (("geti2_series", res["series"]), ("pow", res["pow"])):
+        o.append("def %s_tol : Rat := %s" % (key, _q(lp["tol"])))
+        o.append("def %s_maxloops : Nat := %d" % (key, lp["maxloops"]))
+        o.append("def %s_j0 : Nat := %d" % (key, lp["j0"]))
+        o.append("def %s_cond : String := %s" % (key, json.dumps(lp["cond"])))
+        o.append("def %s_body : List String := %s" % (key, _strs(lp["body"])))
+        o.append("def %s_raise : String := %s" % (key, json.dumps(lp["raise"])))
+    o.append("def procbhalf_assignments : List String := %s" % _strs(res["procbhalf"]))
+    o.append("def epq_norm_expr : String := %s" % json.dumps(res["epq_norm"]))
     o.append("")
     o.append("end PyYetiVerif.Generated.PadeTables")
     return "\n".join(o) + "\n"
